@@ -1,0 +1,23 @@
+//! Verification hooks, compiled only with `--cfg raft_log_verif`.
+//!
+//! A process-global observer receives named points synchronously on the
+//! emitting thread; it may log them or block the thread. Without an observer
+//! every point is a no-op.
+
+use std::sync::OnceLock;
+
+pub type Observer = Box<dyn Fn(&'static str, u64) + Send + Sync + 'static>;
+
+static OBSERVER: OnceLock<Observer> = OnceLock::new();
+
+/// Install the process-global observer. Only the first call has an effect.
+pub fn set_observer(o: Observer) {
+    let _ = OBSERVER.set(o);
+}
+
+#[inline]
+pub fn point(name: &'static str, arg: u64) {
+    if let Some(o) = OBSERVER.get() {
+        o(name, arg)
+    }
+}
